@@ -24,9 +24,7 @@ var (
 	errInvalidListenerPort = errors.New("invalid listener port")
 	errPacketWriting       = errors.New("failed to write packet")
 	errPathAvailability    = errors.New("no path available")
-	errPathReversal        = errors.New("failed to reverse path")
 	errUnexpectedAddrType  = errors.New("unexpected address type")
-	errUnexpectedPathType  = errors.New("unexpected path type")
 )
 
 type baseConn struct {
@@ -220,25 +218,27 @@ func (c *serverConn) LocalAddr() net.Addr {
 }
 
 func (c *serverConn) ReadFrom(b []byte) (int, net.Addr, error) {
-	n, remoteAddr, path, lastHop, err := c.readPkt(b)
-	if err != nil {
-		return 0, nil, err
+	for {
+		n, remoteAddr, path, lastHop, err := c.readPkt(b)
+		if err != nil {
+			return 0, nil, err
+		}
+		rpath, ok := path.(snet.RawPath)
+		if !ok {
+			continue // ignore packet with unexpected path type
+		}
+		replyPather := snet.DefaultReplyPather{}
+		replyPath, err := replyPather.ReplyPath(rpath)
+		if err != nil {
+			continue // ignore packet with irreversible path
+		}
+		remoteAddrPath := udpAddrPath{
+			addr:    remoteAddr,
+			path:    replyPath,
+			nextHop: lastHop,
+		}
+		return n, remoteAddrPath, nil
 	}
-	rpath, ok := path.(snet.RawPath)
-	if !ok {
-		return 0, nil, errUnexpectedPathType
-	}
-	replyPather := snet.DefaultReplyPather{}
-	replyPath, err := replyPather.ReplyPath(rpath)
-	if err != nil {
-		return 0, nil, errPathReversal
-	}
-	remoteAddrPath := udpAddrPath{
-		addr:    remoteAddr,
-		path:    replyPath,
-		nextHop: lastHop,
-	}
-	return n, remoteAddrPath, err
 }
 
 func (c *serverConn) WriteTo(b []byte, addr net.Addr) (int, error) {
